@@ -681,6 +681,10 @@ def mt_items(tier, seed):
                                     add("smt", trainer, n_tasks, container, si=si, K=K, mode=mode, kappa=kappa, sub=1)
                                 else:
                                     add("smt", trainer, n_tasks, container, si=si, K=K, mode=mode, kappa=kappa)
+    # --- one deep path: scheduling intervals of more than 100 episodes (episode-statistics windows default to 100) --------
+    for algo, kw in (("smt", dict(K=1, mode="main", kappa=0.8)), ("amt", dict(sel="Round Robin")), ("uts", {})):
+        out.append(dict(kind="mt-" + algo, name=f"mt-{algo}-stub-long-interval", algo=algo, trainer="stub", n_tasks=2, container="vec", seed=seed, si=101,
+                        lengths=[[1, 1], [1, 2]], budgets=[(230, 60)] if algo == "smt" else [290], **kw))
     # --- finite warm-up across several scheduling intervals (real backbones) ----------------------
     for algo in ["uts", "amt", "smt"]:
         for trainer in (["td3"] if quick else ["ddpg", "td3", "sac"]):
@@ -958,6 +962,11 @@ def work_mt_warm(item, col):
 def work_mt(item, col):
     if item.get("warms"):
         return work_mt_warm(item, col)
+    if item.get("budgets"):
+        for lengths in item["lengths"]:
+            for b in item["budgets"]:
+                run_one(item, col, tuple(lengths), tuple(b) if isinstance(b, (list, tuple)) else b)
+        return
     quick_splits = SMT_SPLITS_QUICK
     if item["algo"] == "smt":
         budgets = quick_splits + (SMT_SPLITS_MORE if item.get("more") else [])
